@@ -20,7 +20,7 @@ func init() {
 			"Eval'ed 0..3 times, and Subscribed from 1..3 threads with each nil/non-nil combination of ObserveOn(h1)/SubscribeOn(h2) and with a Subscription without OnNext; a reference interpreter of the tree gives the " +
 			"expected value and effect order; the three monad laws are checked as behavioural equalities on generated instances; non-trivial = a handler was involved with >=2 subscribers or >=2 evaluations of a tree with >=2 effects; " +
 			"distinct = distinct context-switch signature" +
-			" Probes: Eval with closed handlers configured, handler replacement after both handlers were the same, Just of a MonadIO, method-style constructors, re-configuration while subscriptions are in flight.",
+			" Probes: Eval with closed handlers configured, handler replacement after both handlers were the same, Just of a MonadIO, method-style constructors, re-configuration while subscriptions are in flight, one-shot handlers closed by the OnNext / the effect that runs on them.",
 		Real:        []string{"fpgo.MonadIODef (Just, New, FlatMap, Eval, Subscribe, ObserveOn, SubscribeOn)", "fpgo.HandlerDef goroutines"},
 		Stub:        []string{"goroutine scheduler", "effects / FlatMap functions (harness closures)"},
 		Assumptions: []string{"laziness and the laws do not depend on the schedule; they are checked because the reference interpreter is needed anyway for routing and exactly-once under concurrent subscribers"},
@@ -470,6 +470,53 @@ func (sc *c11Scenario) laws(s *simrt.Sim, add func(clause, fp, detail string)) {
 		if r := pm.Eval(); r == nil || r.n != 7 || steps != 11 {
 			add("once-per-evaluation", "nil-pointer-in-the-middle-of-a-chain", fmt.Sprintf("New(nil *box).FlatMap(fallback).FlatMap(id).Eval() = %v after %d step marks (want the fallback box 7, marks 11)", r, steps))
 		}
+	}
+	// one-shot handlers: the OnNext (or the effect) closes the very handler it runs on - the step that the handler
+	// had already taken still counts exactly once, and nothing of the chain moves to another goroutine
+	for _, closer := range []string{"OnNext", "effect"} {
+		hX := fpgo.Handler.New()
+		tidX := sc.handlerTID(s, hX)
+		if sc.LawSeed%2 == 0 {
+			s.Go("one-shot-busy-"+closer, func() { hX.Post(func() { s.Yield(); s.Yield() }) }) // the looper may still be busy when the step is posted
+		}
+		effs, nexts, effTID, nextTID := 0, 0, -1, -1
+		mx := fpgo.MonadIONewGenerics(func() int {
+			effs++
+			effTID = s.Self().ID
+			if closer == "effect" {
+				hX.Close()
+			}
+			return 31
+		})
+		if closer == "effect" {
+			mx.ObserveOn(hX)
+		} else {
+			mx.SubscribeOn(hX)
+		}
+		st := s.Go("one-shot-"+closer, func() {
+			sc.h.Do("one-shot-"+closer, "Subscribe", nil, func() (interface{}, error) {
+				mx.Subscribe(fpgo.Subscription[int]{OnNext: func(v int) {
+					nexts++
+					nextTID = s.Self().ID
+					if closer == "OnNext" {
+						hX.Close()
+					}
+				}})
+				return nil, nil
+			})
+		})
+		ok := s.WaitUntilTimeout(func() bool { return st.Done() && nexts > 0 }, 5*time.Minute)
+		for i := 0; i < 3; i++ {
+			s.Yield()
+		}
+		wantEff := tidX
+		if closer == "OnNext" {
+			wantEff = effTID // the subscriber's own goroutine; not compared
+		}
+		if !ok || effs != 1 || nexts != 1 || nextTID != tidX || effTID != wantEff {
+			add("once-per-evaluation", "handler-closed-by-its-own-"+closer, fmt.Sprintf("Subscribe whose %s closes the handler it runs on: effect ran %d times on T%d, OnNext %d times on T%d (want once each, OnNext on the handler T%d; delivered=%v)", closer, effs, effTID, nexts, nextTID, tidX, ok))
+		}
+		sc.probes["handler-closed-by-its-own-step"]++
 	}
 	// Eval is synchronous on the caller whatever handlers the MonadIO carries - also handlers that have been
 	// closed meanwhile (fault: the handler is gone): the effect runs once, here, and the value comes back
